@@ -106,6 +106,10 @@ def run_one(mod, case, ctx, idx=None):
     try:
         mod.run_case(case, ctx)
     except Exception as e:  # the harness itself failed on this case: report, never hide
+        if type(e).__name__ == "Runaway":
+            ctx.viol("runaway:events-executed-far-more-often-than-scheduled", {"executions": str(e)})
+            ctx.end(case)
+            return
         tb = traceback.extract_tb(e.__traceback__)
         where = "?"
         for fr in reversed(tb):
@@ -228,13 +232,15 @@ def run_check(pid, tier, seed):
     ctx = Ctx()
     inconclusive = []
     deadline = t0 + plan.get("timeout", 600)
+    nhang = [0]
     for k, p, out, log in procs:
         try:
             p.wait(timeout=max(1.0, deadline - time.time()))
         except subprocess.TimeoutExpired:
             p.kill()
             p.wait()
-            hung = _hung_case(mod, pid, tier, seed, out, tmp, k)
+            nhang[0] += 1
+            hung = _hung_case(mod, pid, tier, seed, out, tmp, k) if nhang[0] <= 2 else None
             if hung is not None:
                 ctx.viols.setdefault(hung[0], hung[1])
             else:
@@ -281,7 +287,7 @@ def _hung_case(mod, pid, tier, seed, out, tmp, k):
     rout = os.path.join(tmp, f"hang{k}.out")
     try:
         subprocess.run([base.PY, "-B", "-m", "vlib.worker", "--replay", pid, path, rout], env=base.child_env(),
-                       timeout=mod.plan(tier).get("hang_timeout", 120), cwd=base.ROOT,
+                       timeout=mod.plan(tier).get("hang_timeout", 60), cwd=base.ROOT,
                        stdout=subprocess.DEVNULL, stderr=subprocess.DEVNULL)
         return None
     except subprocess.TimeoutExpired:
